@@ -60,7 +60,7 @@ WellFormed(p) ==
   /\ \A h \in TH : p.hd[h].k = "S" => (p.hd[h].pid \in DOMAIN TStatics /\ p.hd[h].len <= Len(TStatics[p.hd[h].pid]))
   /\ \A h \in TH : p.hd[h].k = "I" => p.hd[h].len <= 16
   /\ \A b \in TB : p.blk[b] > 0 => P!Holders(p, b) # {}
-  /\ \A h \in TH : p.hd[h].k # "D" => Len(p.hd[h].text) = p.hd[h].len
+  /\ \A h \in TH : p.hd[h].k # "D" => (Len(p.hd[h].text) = p.hd[h].len /\ ValidUtf8(p.hd[h].text))
 Longest(p, b) == LET hs == P!Holders(p, b)
                      h == CHOOSE x \in hs : \A y \in hs : p.hd[y].len <= p.hd[x].len IN p.hd[h].text
 StFromObs(p) ==
@@ -109,7 +109,7 @@ CallStep(e) ==
       drift == IF ~app THEN {}
                ELSE {k \in {"o"} : LS!Proj(r.st) # p}
                     \cup {k \in {"cls", "val", "msg", "dA", "dR", "dD", "inj"} : r.res[k] # c[k]}
-      stdbad == /\ ~S!SFailed(c)
+      stdbad == /\ ~S!SFailed(c) /\ c.scls # "skipped"
                 /\ \/ \E h \in TH : e.std[h] # tx1[h]
                    \/ c.scls # a.cls \/ c.sval # a.val \/ (a.cls = "panic" /\ c.smsg # a.msg)
   IN
